@@ -131,6 +131,11 @@ def preAlloc : Pc → Bool
   | .start | .picked | .reading | .merging => true
   | _ => false
 
+/-- the job's edit log has been installed (its version swap is done) and the commit is not over -/
+def postSwap : Pc → Bool
+  | .cSwapped | .cChecked | .cPrevDone | .cDecd | .cRemoved | .cReleased => true
+  | _ => false
+
 def delRange : Pc → Bool
   | .doRolled | .doEvicted | .doRemoved => true
   | _ => false
@@ -149,6 +154,7 @@ def DeadR (s : St) (f : Nat) : Prop := Dead s f ∧ f ∉ (s.ver s.cur).rollup
 /-- per-job part of the invariant -/
 structure JobOk (s : St) (j : Nat) (b : Job) : Prop where
   konly : compactOnly b.pc = true → b.kind = .compact
+  notCloned : b.pc ≠ .cCloned
   noOut : preAlloc b.pc = true → b.out = none
   ownIdx : (b.pc = .oDecd ∨ b.pc = .oRemoved) → b.snap < s.nSnap
   pend : outPending b.pc = true → ∀ f ∈ outNo b, f ∈ s.pending
@@ -165,6 +171,7 @@ structure JobOk (s : St) (j : Nat) (b : Job) : Prop where
   built : b.pc = .cSnapped → b.newVer < s.nextVer ∧ s.ver b.newVer = applyEdit (s.ver s.cur) b.edit
   reading : b.pc = .reading → ∀ f ∈ b.todoIn, f ∈ (s.ver (s.snap b.snap).ver).nos
   inputs : b.pc = .picked → ∀ m ∈ b.inputs, m.no ∈ (s.ver (s.snap b.snap).ver).nos
+  recorded : postSwap b.pc = true → b.edit ∈ s.hist
   listed : b.pc = .doListed → ∀ f ∈ b.dlist, f < s.nextFile
   pended : b.pc = .doPended → ∀ f ∈ b.dlist, f ∉ b.live → PastPending s f
   actived : b.pc = .doActived → ∀ f ∈ b.dlist, f ∉ b.live → Dead s f
